@@ -1,27 +1,26 @@
-"""C04 - hex library macros compute their documented function for every operand."""
+"""C05 - bit library macros compute their documented function for every operand."""
 import itertools
 
 from hypothesis import strategies as st
 
 from fjverif import bench as benchmod
-from fjverif import stlspec_hex as S
+from fjverif import stlspec_bit as S
 from fjverif.imagegen import D
 from fjverif.runner import Ok, Violation, Discard
 
-ID = 'C04'
+ID = 'C05'
 LEVEL = 'exploration'
-RULE = ('(sweeps) for every documented hex data macro overload (memory, logic, inc/dec/neg/abs/sign_extend/count_bits, add/sub '
-        'and their shifted / constant forms incl. carry-in/out, shifts, conditional jumps, cmp/scmp/min/max, add_mul/mul/mul10, '
-        'div, idiv x rem_opt) one bench program per (macro, n, m, constants, w): operands are poked and EXHAUSTIVELY enumerated '
-        'when they total <= 8 bits (quick) / <= 16 bits (thorough), otherwise drawn with boundary bias; after the macro a probe '
-        '(add-carry / sub-carry observation, hex.or, hex.cmp) detects state leaking into the next macro.  (compositions) '
-        'generated sequences of 2-10 macro applications on a shared pool of variables, each run on drawn initial states.  '
-        'Oracle = the doc-comment formula on Python ints: every declared variable (sources unchanged unless documented), the '
-        'branch marker, halting by Looping, leftover carries, probe results.  non-trivial = operands not all zero (and for '
+RULE = ('(sweeps) for every documented bit data macro overload (memory, logic incl. exact/zero variants, if/if0/if1/cmp, '
+        'shifts and rotates, inc1/inc/dec/neg/add1/add/sub, mul10/mul/mul_loop, div10, div/idiv and their loop variants) one bench '
+        'program per (macro, n, constants, w in 64/32/16): operands are poked and EXHAUSTIVELY enumerated when they total <= 10 '
+        'bits (quick) / <= 16 bits (thorough), otherwise boundary-biased; a guard variable and a trailing bit.cmp probe detect '
+        'stray writes.  (compositions) generated sequences of 2-10 macro applications over shared variables on drawn initial '
+        'states.  Oracle = the doc-comment formula on Python ints (name-consistent reading where a doc line contradicts the '
+        'name): every declared variable, the branch marker, halting by Looping.  non-trivial = operands not all zero (and for '
         'compositions >= 3 macros)')
-ASSUMPTIONS = ['formulas transcribed from the doc comments in flipjump/stl/hex/*.fj (fjverif/stlspec_hex.py)',
-               'the native engine is the vehicle (C01/C07); variables are poked/read through _fjcore.Memory.get_word/set_word',
-               'documented preconditions are respected (dst distinct from sources where the doc says so, times <= n, nb <= n)']
+ASSUMPTIONS = ['formulas transcribed from the doc comments in flipjump/stl/bit/*.fj (fjverif/stlspec_bit.py)',
+               'documented preconditions respected: mul_loop dst != src, times <= n, unsafe_mov dst != src, b = 0 => "do nothing"',
+               'the native engine is the vehicle (C01/C07)']
 
 SPEC_BY_NAME = {s['name']: s for s in S.SPECS}
 
@@ -37,7 +36,7 @@ def const_choices(kind, n, m):
     if kind == 'shift':
         return [k for k in range(0, n + 1) if (m or 0) + k <= n]
     if kind == 'times':
-        return list(range(0, n + 1))
+        return sorted(t for t in {0, 1, 2, n // 2, max(0, n - 1), n} if t <= n)
     if kind == 'flags16':
         return [0, 0xFFFF, 0x0001, 0x8000, 0xA5C3, 0x00FF]
     raise ValueError(kind)
@@ -51,16 +50,14 @@ def variants(tier):
             for m in s['ms']:
                 if m is not None and m > n:
                     continue
-                if s['name'] == 'hex.sign_extend' and m >= n:
-                    continue
                 cs = const_choices(s['consts']['C'], n, m) if 'C' in s['consts'] else [None]
                 ks = const_choices(s['consts']['K'], n, m) if 'K' in s['consts'] else [None]
                 if tier == 'quick':
                     cs, ks = cs[:3], ks[:3]
                 for C in cs:
                     for K in ks:
-                        for w in (64, 32):
-                            if w == 32 and tier == 'quick' and (n > 2 or C not in (None, cs[0]) or K not in (None, ks[0])):
+                        for w in (64, 32, 16):
+                            if w != 64 and tier == 'quick' and (n > 3 or C not in (None, cs[0]) or K not in (None, ks[0])):
                                 continue
                             out.append({'spec': s['name'], 'n': n, 'm': m, 'C': C, 'K': K, 'w': w})
     return out
@@ -75,20 +72,15 @@ def build_source(v):
     n, m = v['n'], v['m']
     call = s['call'].format(n=n, m=m, C=v['C'], K=v['K'], L0='L0', L1='L1', L2='L2')
     sizes = var_sizes(s, n, m)
-    lines = ['stl.startup_and_init_all']
-    if s['pre']:
-        lines.append(s['pre'])
-    lines += [call, "stl.output_char 'F'", ';done']
+    lines = ['stl.startup', call, "stl.output_char 'F'", ';done']
     for i in range(3):
         lines += ['L%d:' % i, "stl.output_char '%d'" % i, ';done']
-    lines += ['done:', 'hex.add.clear_carry ac0, ac1', 'ac1:', "stl.output_char '!'", 'ac0:',
-              'hex.sub.clear_carry sc0, sc1', 'sc1:', "stl.output_char '?'", 'sc0:',
-              'hex.or pr, pq', 'hex.cmp 2, pa, pb, plt, peq, pgt',
+    lines += ['done:', 'bit.cmp 4, pa, pb, plt, peq, pgt',
               'plt:', "stl.output_char '<'", ';halt', 'peq:', "stl.output_char '='", ';halt', 'pgt:', "stl.output_char '>'", ';halt',
-              'halt:', 'stl.loop']
+              'halt:', 'stl.loop', 'guardA:', 'bit.vec 3']
     for name, size in sizes.items():
-        lines += ['%s:' % name, 'hex.vec %d' % size]
-    lines += ['guard0:', 'hex.vec 2', 'pr:', 'hex.hex 5', 'pq:', 'hex.hex 3', 'pa:', 'hex.vec 2, 0x34', 'pb:', 'hex.vec 2, 0x35']
+        lines += ['%s:' % name, 'bit.vec %d' % size, 'g_%s:' % name, 'bit.vec 2']
+    lines += ['pa:', 'bit.vec 4, 0x4', 'pb:', 'bit.vec 4, 0x5']
     return '\n'.join(lines) + '\n', sizes
 
 
@@ -110,51 +102,49 @@ def run_tuple(b, sizes, v, values):
     s = SPEC_BY_NAME[v['spec']]
     m_ = b.fresh()
     for name, size in sizes.items():
-        b.set(m_, name, size, values[name])
+        b.set(m_, name, size, values[name], 1)
     r = b.run(m_)
     upd = s['f'](dict(values), v['n'], v['m'], v['C'], v['K'])
     br = upd.get('_branch', 'fall')
-    exp_out = ('F' if br == 'fall' else str(br)) + ('!' if upd.get('_addc') else '') + ('?' if upd.get('_subc') else '') + '<'
+    exp_out = ('F' if br == 'fall' else str(br)) + '<'
     got_out = r['out'].decode('latin-1')
     if r['cause'] != 'Looping':
         return 'termination', {'cause': r['cause'], 'fault': r['fault'], 'out': got_out}
     if got_out != exp_out:
         if got_out[:1] != exp_out[:1]:
             return 'branch', {'got': got_out, 'expected': exp_out}
-        if ('!' in got_out) != ('!' in exp_out) or ('?' in got_out) != ('?' in exp_out):
-            return 'carry-left-behind', {'got': got_out, 'expected': exp_out}
         return 'probe-compare', {'got': got_out, 'expected': exp_out}
     for name, size in sizes.items():
         exp = upd.get(name, values[name])
-        got = b.get(m_, name, size)
+        got = b.get(m_, name, size, 1)
         if got != exp:
             kind = 'destination' if name in upd else 'source-or-bystander-changed'
             return kind + ':' + name, {'var': name, 'got': got, 'expected': exp}
         for i in range(size):
-            if b.cell_raw(m_, name, i) > 15:
+            if b.cell_raw(m_, name, i) > 1:
                 return 'stray-bits:' + name, {'var': name, 'cell': i, 'raw': b.cell_raw(m_, name, i)}
-    if b.get(m_, 'pr', 1) != 7 or b.get(m_, 'pq', 1) != 3 or b.get(m_, 'guard0', 2) != 0:
-        return 'table-state-leak', {'pr': b.get(m_, 'pr', 1), 'guard0': b.get(m_, 'guard0', 2)}
+    if b.get(m_, 'guardA', 3, 1) != 0 or any(b.get(m_, 'g_' + nm, 2, 1) != 0 for nm in sizes):
+        return 'stray-write-next-to-variable', {'guards': [b.get(m_, 'g_' + nm, 2, 1) for nm in sizes]}
     return None
 
 
 def boundary_values(size):
     mx = S.M(size)
-    vals = {0, 1, 2, 7, 8, 9, 10, 15, mx, mx - 1, (mx + 1) >> 1, ((mx + 1) >> 1) - 1, ((mx + 1) >> 1) + 1}
-    for k in range(1, size):
-        vals |= {1 << (4 * k), (1 << (4 * k)) - 1, (1 << (4 * k)) + 1}
+    vals = {0, 1, 2, 3, 5, 9, 10, 11, 99, 100, mx, mx - 1, (mx + 1) >> 1, ((mx + 1) >> 1) - 1, ((mx + 1) >> 1) + 1, 0x55555 & mx, 0xAAAAA & mx}
+    for k in range(1, size, 3):
+        vals |= {1 << k, (1 << k) - 1, (1 << k) + 1}
     return sorted(x for x in vals if 0 <= x <= mx)
 
 
 def enumerations(tier):
-    limit_bits = 8 if tier == 'quick' else 16
+    limit_bits = 10 if tier == 'quick' else 16
 
     def cases(shard, nshards):
         k = 0
         for v in variants(tier):
             s = SPEC_BY_NAME[v['spec']]
             sizes = var_sizes(s, v['n'], v['m'])
-            bits = 4 * sum(sizes.values())
+            bits = sum(sizes.values())
             k += 1
             if k % nshards != shard:
                 continue
@@ -167,7 +157,7 @@ def enumerations(tier):
 
 def sweep_tuples(v, sizes):
     names = list(sizes)
-    if v['mode'] == 'exhaustive' and 4 * sum(sizes.values()) <= 16:
+    if v['mode'] == 'exhaustive' and sum(sizes.values()) <= 16:
         ranges = [range(S.M(sizes[n]) + 1) for n in names]
     else:
         ranges = [boundary_values(sizes[n]) for n in names]
@@ -188,7 +178,9 @@ def run_sweep(v):
     try:
         b, sizes = get_bench(v)
     except benchmod.BenchError as e:
-        return Violation('c04:%s:bench-program-does-not-assemble' % v['spec'], {'error': str(e)[:600]}, [])
+        if v['w'] == 16 and ('Not enough space' in str(e) or "doesn't fit in a 16-bits" in str(e)):
+            return Discard('program does not fit the 2^16-bit address space')
+        return Violation('c05:%s:bench-program-does-not-assemble' % v['spec'], {'error': str(e)[:600]}, [])
     cl = ['macro=' + v['spec'], 'w=%d' % v['w'], 'mode=' + v['mode']]
     count = 0
     nz = 0
@@ -199,26 +191,23 @@ def run_sweep(v):
         bad = run_tuple(b, sizes, v, values)
         if bad:
             what, detail = bad
-            key = 'c04:%s:%s' % (v['spec'], what)
-            upd = SPEC_BY_NAME[v['spec']]['f'](dict(values), v['n'], v['m'], v['C'], v['K'])
-            if v['spec'].startswith('hex.idiv') and 'q' in upd:
-                a, bb = S.sgn(values['a'], v['n']), S.sgn(values['b'], v['m'])
-                if bb != 0 and a % bb == 0 and v['spec'][-1] in '02':
-                    key = 'c04:hex.idiv:rem_opt0|2:zero-remainder-adjusted'
+            key = 'c05:%s:%s' % (v['spec'], what)
+            if v['spec'] in ('bit.idiv', 'bit.idiv_loop') and values.get('b') == 0 and S.sgn(values['a'], v['n']) < 0:
+                key = 'c05:bit.idiv*:b0:negative-a:q-r-negated'
             return Violation(key, {'variant': {k: v[k] for k in ('spec', 'n', 'm', 'C', 'K', 'w')}, 'operands': values, **detail}, cl)
     return Ok(cl, nz > 0, evals=count, distinct=nz, sample={'variant': {k: v[k] for k in ('spec', 'n', 'm', 'C', 'K', 'w')}, 'tuples': count})
 
 
 # ------------------------------------------------------------------ compositions
 
-COMPOSABLE = [s for s in S.SPECS if '{L' not in s['call'] and not s['pre'] and '/1' not in s['name'] and s['name'] not in
-              ('hex.double_xor', 'hex.mov/n same address', 'hex.add/n same')]
+COMPOSABLE = [s for s in S.SPECS if '{L' not in s['call'] and '/1' not in s['name'] and 'same' not in s['name'] and 'squaring' not in s['name']
+              and 'dbit' not in s['call'] and s['name'] not in ('bit.inc1', 'bit.add1', 'bit.unsafe_mov')]
 
 
 @st.composite
 def compositions(draw):
     d = D(draw)
-    n = d.choice([1, 2, 2, 3, 4])
+    n = d.choice([2, 3, 4, 4, 6, 8])
     pool = ['v0', 'v1', 'v2', 'v3']
     steps = []
     for _ in range(d.int(2, 10)):
@@ -227,7 +216,7 @@ def compositions(draw):
             continue
         m = None
         if s['ms'] != (None,):
-            m = d.choice([x for x in s['ms'] if x < n or (x <= n and s['name'] != 'hex.sign_extend')] or [None])
+            m = d.choice([x for x in s['ms'] if x <= n] or [None])
             if m is None:
                 continue
         names = list(s['vars'])
@@ -241,7 +230,7 @@ def compositions(draw):
         K = d.choice(const_choices(s['consts']['K'], n, m) or [0]) if 'K' in s['consts'] else None
         steps.append({'spec': s['name'], 'map': dict(zip(names, chosen)), 'm': m, 'C': C, 'K': K})
     inits = [[d.choice(boundary_values(n)) if d.pct() < 50 else d.int(0, S.M(n)) for _ in pool] for _ in range(d.int(3, 12))]
-    return {'kind': 'composition', 'n': n, 'w': d.choice([64, 64, 32]), 'steps': steps, 'inits': inits}
+    return {'kind': 'composition', 'n': n, 'w': d.choice([64, 32, 16]), 'steps': steps, 'inits': inits}
 
 
 def families(tier):
@@ -253,31 +242,30 @@ def run_composition(case):
     n, w = case['n'], case['w']
     if len(case['steps']) < 2:
         return Discard('too few steps')
-    lines = ['stl.startup_and_init_all']
+    lines = ['stl.startup']
     for st_ in case['steps']:
         s = SPEC_BY_NAME[st_['spec']]
         call = s['call'].format(n=n, m=st_['m'], C=st_['C'], K=st_['K'])
-        # rename the macro's formal variables a,b,c,d,q,r to pool variables
         toks = call.split(' ', 1)
         args = [x.strip() for x in toks[1].split(',')]
         args = [st_['map'].get(a, a) for a in args]
         lines.append(toks[0] + ' ' + ', '.join(args))
-    lines += ['hex.add.clear_carry ac0, ac1', 'ac1:', "stl.output_char '!'", 'ac0:', 'hex.sub.clear_carry sc0, sc1', 'sc1:',
-              "stl.output_char '?'", 'sc0:', 'hex.or pr, pq', "stl.output_char '.'", 'stl.loop']
+    lines += ["stl.output_char '.'", 'stl.loop']
     for p in ('v0', 'v1', 'v2', 'v3'):
-        lines += [p + ':', 'hex.vec %d' % n]
-    lines += ['pr:', 'hex.hex 5', 'pq:', 'hex.hex 3']
+        lines += [p + ':', 'bit.vec %d' % n]
     src = '\n'.join(lines) + '\n'
     try:
         b = benchmod.Bench(src, w)
     except benchmod.BenchError as e:
-        return Violation('c04:composition:does-not-assemble', {'error': str(e)[:500]}, [])
+        if w == 16 and ('Not enough space' in str(e) or "doesn't fit in a 16-bits" in str(e)):
+            return Discard('program does not fit the 2^16-bit address space')
+        return Violation('c05:composition:does-not-assemble', {'error': str(e)[:500]}, [])
     cl = ['family=composition', 'w=%d' % w, 'n=%d' % n]
     for init in case['inits']:
         env = dict(zip(('v0', 'v1', 'v2', 'v3'), init))
         m_ = b.fresh()
         for p, val in env.items():
-            b.set(m_, p, n, val)
+            b.set(m_, p, n, val, 1)
         for st_ in case['steps']:
             s = SPEC_BY_NAME[st_['spec']]
             local = {formal: env[actual] for formal, actual in st_['map'].items()}
@@ -287,13 +275,11 @@ def run_composition(case):
                     env[st_['map'][formal]] = val
         r = b.run(m_)
         if r['cause'] != 'Looping' or r['out'] != b'.':
-            return Violation('c04:composition:termination-or-carry', {'cause': r['cause'], 'out': r['out'].decode('latin-1'), 'src': src[:800], 'init': init}, cl)
+            return Violation('c05:composition:termination-or-carry', {'cause': r['cause'], 'out': r['out'].decode('latin-1'), 'src': src[:800], 'init': init}, cl)
         for p in env:
-            got = b.get(m_, p, n)
+            got = b.get(m_, p, n, 1)
             if got != env[p]:
-                return Violation('c04:composition:value', {'var': p, 'got': got, 'expected': env[p], 'init': init, 'src': src[:900]}, cl)
-        if b.get(m_, 'pr', 1) != 7:
-            return Violation('c04:composition:table-state-leak', {'pr': b.get(m_, 'pr', 1), 'src': src[:800]}, cl)
+                return Violation('c05:composition:value', {'var': p, 'got': got, 'expected': env[p], 'init': init, 'src': src[:900]}, cl)
     distinct_macros = len({s_['spec'] for s_ in case['steps']})
     return Ok(cl + ['macros>=3'] if distinct_macros >= 3 else cl, distinct_macros >= 3, evals=len(case['inits']))
 
